@@ -178,9 +178,11 @@ func dedupLoop(configArgs map[string]string, w *fsnotify.Watcher, completedChann
 }
 
 // Whether a directory cannot be watched because there is no such directory: a component
-// of its path does not exist, or is a file.
+// of its path does not exist, is a file, is longer than a name can be, or is a symbolic
+// link that leads nowhere.
 func isNoSuchDirectory(err error) bool {
-	return errors.Is(err, fs.ErrNotExist) || errors.Is(err, syscall.ENOTDIR)
+	return errors.Is(err, fs.ErrNotExist) || errors.Is(err, syscall.ENOTDIR) ||
+		errors.Is(err, syscall.ENAMETOOLONG) || errors.Is(err, syscall.ELOOP)
 }
 
 // Returns the directories to watch after parsing all package imports, or nil if the package could not be loaded
